@@ -34,11 +34,11 @@ reg("C08", "fault_enumeration",
     "non-JSON body, empty body, JSON non-problem body) x run length 1..12; F2n: 3 polling phases x 8 stay-pending lengths. "
     "A run is non-trivial when the faulted position was actually reached and answered by the scripted error "
     "(or, for F2n, when an object was polled 20 times); distinct = distinct normalised trace hashes among those.",
-    quick=[("F2p", 100000), ("F2n", 100000)],
-    thorough=[("F2p", 100000), ("F2n", 100000), ("F2q", 100000)],
+    quick=[("F2p", 100000), ("F2n", 100000), ("F2m", 100000)],
+    thorough=[("F2p", 100000), ("F2n", 100000), ("F2q", 100000), ("F2m", 100000)],
     assumptions=["error answers to GETs (directory, newNonce) are outside the statement (it speaks of nonces, i.e. POSTs)",
                  "accountDoesNotExist on newOrder/account/keyChange is the C11 re-registration flow, modelled as such"],
-    exhaustive_families=["F2p", "F2n", "F2q"])
+    exhaustive_families=["F2p", "F2n", "F2q", "F2m"])
 
 reg("C03", "fault_enumeration",
     "F2: exhaustive single-fault grid: 4 base plans (kp_reuse on/off x matching pair pre-existing or not) x 14 request positions "
@@ -84,8 +84,9 @@ reg("C01", "exploration",
     "F1: issuance swarm (1..3 certificates, identifier sets of 1..8 entries mixing plain/wildcard/IDN/mixed-case DNS names and IPv4/IPv6 in several "
     "textual forms, 7 key types with RSA kept rare, 3 digests, random subsets of the 15 subject attributes, kp_reuse x key-file states) x CA-behaviour swarm. "
     "Oracle in the model CA and at the storage seam: newOrder identifiers == the harness's own IDNA / RFC 5952 expectation; CSR parsed from DER: self-signature, "
-    "SAN multisets, subject, digest, key type; retransmitted finalize identical; after success the stored key is the CSR's key. Non-trivial = at least one order reached the CA.",
-    quick=[("F1", 1500)], thorough=[("F1", 100000), ("F1s", 40000)],
+    "SAN multisets, subject, digest, key type; retransmitted finalize identical; after success the stored key is the CSR's key. F1w: a name and its wildcard in one certificate, both orders "
+    "(both must be ordered and requested). Non-trivial = at least one order reached the CA.",
+    quick=[("F1", 1500), ("F1w", 120)], thorough=[("F1", 100000), ("F1s", 40000), ("F1w", 20000)],
     assumptions=["IDN inputs restricted to code points for which lower-case-then-Punycode is unambiguously the A-label (no UTS-46 mappings demanded)",
                  "the input-space quantifier is covered by seeded generation only"])
 
@@ -105,11 +106,11 @@ reg("C13", "exploration",
 
 reg("C05", "exploration",
     "F1 (identifier swarm: several names with different challenge types, CA lists authorizations/challenges in any order, offers subsets, pre-valid authorizations, "
-    "7 account key types), F1w (a name and its wildcard with every (base, wildcard) challenge-type pair in both declaration orders), F1h (generated hook tables in which challenge hooks fail on some invocations: the CA must not be told the challenge is ready), and F6k/F6 (account key roll-overs between all ordered pairs of key types and edit/restart histories: the proof must use the key the CA holds when the hooks run, not a superseded one). Oracle: the CA's own computation "
+    "7 account key types), F1w (a name and its wildcard with every (base, wildcard) challenge-type pair in both declaration orders), F1p (pending authorizations whose challenges are shown as processing or valid: the hooks of the configured type run all the same), F1h (generated hook tables in which challenge hooks fail on some invocations: the CA must not be told the challenge is ready), and F6k/F6 (account key roll-overs between all ordered pairs of key types and edit/restart histories: the proof must use the key the CA holds when the hooks run, not a superseded one). Oracle: the CA's own computation "
     "of key authorization / dns-01 digest / acmeIdentifier text / reverse-DNS name from the registered JWK and issued token vs what the hook process received; hook type == "
     "the type configured for the identifier the authorization is for; challenge POST only after the hooks exited successfully; no hook for an already valid authorization. "
     "Non-trivial = at least one authorization of a mapped order was judged.",
-    quick=[("F1", 1200), ("F1w", 360), ("F1h", 400), ("F6k", 42), ("F6", 200)], thorough=[("F1", 80000), ("F1w", 20000), ("F1h", 30000), ("F6k", 42), ("F6", 10000), ("F6x", 10000)],
+    quick=[("F1", 1200), ("F1w", 360), ("F1p", 72), ("F1h", 400), ("F6k", 42), ("F6", 200)], thorough=[("F1", 80000), ("F1w", 20000), ("F1p", 72), ("F1h", 30000), ("F6k", 42), ("F6", 10000), ("F6x", 10000)],
     assumptions=["when a name and its wildcard use the same challenge type either configuration entry may be looked up (only type and proof values are judged)",
                  "no hook and no challenge POST when the CA does not offer the configured type is correct behaviour"])
 
